@@ -87,7 +87,7 @@ func (p *Program) termOf(v ssa.Value, busy map[ssa.Value]bool, depth int) *Term 
 	t := p.termOf1(v, busy, depth)
 	delete(busy, v)
 	// cache only cycle-free, path-independent results
-	if p.phiHook == nil && !t.Has(func(x *Term) bool { return x.Op == "mu" }) {
+	if p.phiHook == nil && !t.HasLocal(func(x *Term) bool { return x.Op == "mu" }) {
 		p.termCache[termKey{v}] = t
 	}
 	return t
@@ -599,6 +599,18 @@ func shortFn(f *ssa.Function) string {
 
 // Has reports whether any subterm satisfies pred.
 func (t *Term) Has(pred func(*Term) bool) bool {
+	return t.has(pred, 0)
+}
+
+// HasLocal: like Has, without looking into helper functions.
+func (t *Term) HasLocal(pred func(*Term) bool) bool {
+	return t.has(pred, 99)
+}
+
+// has looks for a subterm satisfying pred; a call to a function of the module is also looked
+// through (its returned terms with the arguments substituted), so that moving an expression into
+// a helper does not hide where a value comes from.
+func (t *Term) has(pred func(*Term) bool, depth int) bool {
 	if t == nil {
 		return false
 	}
@@ -606,11 +618,32 @@ func (t *Term) Has(pred func(*Term) bool) bool {
 		return true
 	}
 	for _, a := range t.Args {
-		if a.Has(pred) {
+		if a.has(pred, depth) {
 			return true
 		}
 	}
+	if depth < 3 && theProg != nil && (t.Op == "call" || t.Op == "extract" && len(t.Args) == 1 && t.Args[0].Op == "call") {
+		if ex := theProg.expandCached(t); ex != t {
+			return ex.has(pred, depth+1)
+		}
+	}
 	return false
+}
+
+var theProg *Program
+
+var expandCache = map[*Term]*Term{}
+
+func (p *Program) expandCached(t *Term) *Term {
+	if p.phiHook != nil {
+		return p.X1(t)
+	}
+	if ex, ok := expandCache[t]; ok {
+		return ex
+	}
+	ex := p.X1(t)
+	expandCache[t] = ex
+	return ex
 }
 
 // Find returns all subterms satisfying pred (pre-order).
